@@ -89,6 +89,27 @@ def trieInsert (t : Node Fp) (name : Bytes) (v : Fp) : Node Fp × Bool :=
   else if r.1 = InsertResult.failed then (r.2, true)
   else (r.2, false)
 
+-- --------------------------------------------------- the chain presented --
+
+/-- One block of the `certificate_chain` entries of an `AddCertificate`, after
+    `split_certificate_chain`: a certificate (by id), or a block that carries the
+    PEM markers but does not parse (`ParsePem` error). Text without an
+    `END CERTIFICATE` marker yields no block at all. -/
+inductive Link
+  | cert (id : Nat)
+  | bad
+deriving DecidableEq, Repr
+
+/-- `CertifiedKeyWrapper::try_from`, chain assembly: the leaf at index 0, then the
+    blocks of the chain entries in order, dropping every block that is the leaf
+    itself (the `fullchain.pem` shape); `none` = a block does not parse, the whole
+    certificate is refused. This is what rustls presents for the certificate. -/
+def assembleChain (leaf : Nat) (links : List Link) : Option (List Nat) :=
+  if links.any (· == Link.bad) then none
+  else some (leaf :: (links.filterMap fun l => match l with
+    | .cert i => if i = leaf then none else some i
+    | .bad => none))
+
 -- ----------------------------------------------------------------- add --
 
 /-- one iteration of the `for new_name in &cert_to_add.names` loop of
